@@ -12,15 +12,7 @@ def run(ctx):
     g = Graph(aut)
     idx = index()
 
-    # ---------------------------------------------------------------- R09.1
-    r = ctx.rule("R09.1", "each of the six text states releases text at end of chunk: an EOC leaf calls emit_text before break_on_end_of_input", "E-SM", floor=6)
-    for tname, st in sorted(aut.text_state_map.items()):
-        leaves = [l for l in aut.leaves(st) if l["c0"] == (1 << NONE) and l["last"] is False]
-        key = st
-        r.inst(key, sample={"state": st, "eoc_leaves": len(leaves)})
-        ok = leaves and all(l["term"]["t"] == "break" and any(a["name"] == "emit_text" and a.get("try") for a in l["acts"]) for l in leaves)
-        if not ok:
-            r.violate(key, f"text state {st} has no end-of-chunk arm that emits the pending text (text would be held back until the next '<')", shared.state_loc(st))
+    rule_text_released(ctx, aut)
 
     # ---------------------------------------------------------------- R09.2
     gen, kill, ms = tag_start_effects(idx)
@@ -263,3 +255,16 @@ def rule_consumed_count(ctx, idx, rid="R09.4"):
     if v != 7:
         r.violate("lexer", f"Lexer::get_consumed_byte_count yields {v} for lexeme_start=7: with handlers exactly the unfinished token must be held back", "src/parser/lexer/mod.rs")
     return r
+
+
+def rule_text_released(ctx, aut, rid="R09.1"):
+    # ---------------------------------------------------------------- R09.1
+    r = ctx.rule(rid, "each of the six text states releases text at end of chunk: an EOC leaf calls emit_text before break_on_end_of_input", "E-SM", floor=6)
+    for tname, st in sorted(aut.text_state_map.items()):
+        leaves = [l for l in aut.leaves(st) if l["c0"] == (1 << NONE) and l["last"] is False]
+        key = st
+        r.inst(key, sample={"state": st, "eoc_leaves": len(leaves)})
+        ok = leaves and all(l["term"]["t"] == "break" and any(a["name"] == "emit_text" and a.get("try") for a in l["acts"]) for l in leaves)
+        if not ok:
+            r.violate(key, f"text state {st} has no end-of-chunk arm that emits the pending text (text would be held back until the next '<')", shared.state_loc(st))
+
